@@ -1,4 +1,5 @@
 mod guessstream;
+mod metastream;
 mod opsstream;
 mod prng;
 mod runstream;
@@ -165,6 +166,34 @@ fn main() {
             }
             for sh in 0..shards as usize {
                 fs::write(format!("{}/guess_{}.json", out, sh), serde_json::to_string(&jsons[sh]).unwrap()).unwrap();
+            }
+        }
+        "meta" => {
+            let master: u64 = arg(&args, "--master").unwrap_or("0").parse().unwrap();
+            let from: u64 = arg(&args, "--from").unwrap_or("0").parse().unwrap();
+            let count: u64 = arg(&args, "--count").unwrap_or("10").parse().unwrap();
+            let shards: u64 = arg(&args, "--shards").unwrap_or("1").parse().unwrap();
+            let profile = arg(&args, "--profile").unwrap_or("mixed").to_string();
+            let out = arg(&args, "--out-dir").unwrap_or(".").to_string();
+            fs::create_dir_all(&out).unwrap();
+            let mut vfiles = Vec::new();
+            let mut jsons: Vec<Vec<serde_json::Value>> = Vec::new();
+            for sh in 0..shards {
+                let mut f = fs::File::create(format!("{}/meta_{}.v", out, sh)).unwrap();
+                writeln!(f, "From Coq Require Import String.\nFrom Coq Require Import List NArith ZArith.\nFrom Cambrian Require Import Check.MetaCheck.\nImport ListNotations.\nSet Printing Width 100000.\nSet Printing Depth 100000.").unwrap();
+                vfiles.push(f);
+                jsons.push(Vec::new());
+            }
+            for k in 0..count {
+                let idx = from + k;
+                let c = metastream::run_case(master, idx, &profile);
+                let sh = (k % shards) as usize;
+                write!(vfiles[sh], "{}", c.coq).unwrap();
+                writeln!(vfiles[sh], "Eval vm_compute in (judge_meta m{}).", idx).unwrap();
+                jsons[sh].push(c.json);
+            }
+            for sh in 0..shards as usize {
+                fs::write(format!("{}/meta_{}.json", out, sh), serde_json::to_string(&jsons[sh]).unwrap()).unwrap();
             }
         }
         _ => {
